@@ -267,6 +267,18 @@ pub fn structural_probes() -> Vec<Probe> {
         let twin = format!("{PRELUDE}\nuse gc_arena::static_collect;\nfn need<'gc, T: Collect<'gc>>() {{}}\n{twin_items}\nfn main() {{}}\n");
         v.push(Probe { name: format!("static_collect_{}", v.len()), class: format!("static_collect-macro|{n}"), negative: neg, twin });
     }
+    // derive(Collect): require_static (whole type or field) must keep demanding 'static whatever `bound` says
+    let dv: [(&str, &str, &str); 4] = [
+        ("whole-type require_static with an empty bound", "#[derive(Collect)]\n#[collect(require_static, bound = \"\")]\nstruct B<'a>(&'a std::cell::Cell<u8>);", "#[derive(Collect)]\n#[collect(require_static, bound = \"\")]\nstruct B<'a>(&'a std::cell::Cell<u8>);\nfn ok<'gc>() { need::<'gc, B<'static>>(); }"),
+        ("whole-type require_static, bound first", "#[derive(Collect)]\n#[collect(bound = \"where u8: Copy\", require_static)]\nstruct B<'a>(&'a std::cell::Cell<u8>);", "#[derive(Collect)]\n#[collect(require_static)]\nstruct B<'a>(&'a std::cell::Cell<u8>);\nfn ok<'gc>() { need::<'gc, B<'static>>(); }"),
+        ("require_static field with an empty bound", "#[derive(Collect)]\n#[collect(no_drop, bound = \"\")]\nstruct W<T> { #[collect(require_static)] r: T }\ntype B<'a> = W<&'a std::cell::Cell<u8>>;", "#[derive(Collect)]\n#[collect(no_drop, bound = \"\")]\nstruct W<T> { #[collect(require_static)] r: T }\ntype B<'a> = W<&'a std::cell::Cell<u8>>;\nfn ok<'gc>() { need::<'gc, B<'static>>(); }"),
+        ("require_static field with a where bound", "#[derive(Collect)]\n#[collect(no_drop, bound = \"where u8: Copy\")]\nstruct W<T> { n: u8, #[collect(require_static)] r: T }\ntype B<'a> = W<&'a std::cell::Cell<u8>>;", "#[derive(Collect)]\n#[collect(no_drop)]\nstruct W<T> { n: u8, #[collect(require_static)] r: T }\ntype B<'a> = W<&'a std::cell::Cell<u8>>;\nfn ok<'gc>() { need::<'gc, B<'static>>(); }"),
+    ];
+    for (n, items, twin_items) in dv {
+        let neg = format!("{PRELUDE}\nfn need<'gc, T: Collect<'gc>>() {{}}\n{items}\nfn probe<'gc>() {{ need::<'gc, B<'gc>>(); }}\nfn main() {{}}\n");
+        let twin = format!("{PRELUDE}\nfn need<'gc, T: Collect<'gc>>() {{}}\n{twin_items}\nfn main() {{}}\n");
+        v.push(Probe { name: format!("derive_static_{}", v.len()), class: format!("derive-require_static|{n}"), negative: neg, twin });
+    }
     // type parameters a provided Collect impl does not trace (hashers) must be 'static: a branded
     // reference parked there would be stored in the heap without ever being traced
     let untraced: [(&str, &str, &str); 7] = [
